@@ -259,7 +259,7 @@ Section Roundtrip.
   Qed.
 
   Lemma decoded_label : forall r lab, c_inc_columns c = true -> In r (seq 0 (c_dc c)) -> In lab (tf_columns f) ->
-    (if Nat.ltb 1 (c_dc c) then decode_label_cell flt (raw_label flt (nth r lab VNone))
+    (if label_filter_on (c_dc c) then decode_label_cell flt (raw_label flt (nth r lab VNone))
      else raw_label flt (nth r lab VNone)) = nth r lab VNone.
   Proof.
     intros r lab Hic Hr Hlab. apply in_seq in Hr.
@@ -277,7 +277,7 @@ Section Roundtrip.
     rewrite !map_map.
     rewrite (res_list_map_ok _ (fun r => map (fun lab => raw_label flt (nth r lab VNone)) (tf_columns f))).
     - cbn [res_map]. f_equal. unfold cols_of.
-      destruct (Nat.ltb 1 (c_dc c)) eqn:E.
+      destruct (label_filter_on (c_dc c)) eqn:E.
       + rewrite map_map. apply map_ext_in. intros r Hr. rewrite map_map. apply map_ext_in. intros lab Hlab.
         pose proof (decoded_label r lab Hic Hr Hlab) as Q. rewrite E in Q. exact Q.
       + apply map_ext_in. intros r Hr. apply map_ext_in. intros lab Hlab.
